@@ -829,6 +829,11 @@ type deadlineContextWriter struct {
 
 	// quit closed once the connection is closed.
 	quit chan struct{}
+
+	// err is the first error returned by w.Write. After a failed (possibly partial) write the
+	// byte stream may end in the middle of a frame, so no further frame may be written.
+	// Protected by semaphore.
+	err error
 }
 
 // writeContext implements contextWriter.
@@ -847,13 +852,22 @@ func (c *deadlineContextWriter) writeContext(ctx context.Context, p []byte) (int
 		<-c.semaphore
 	}()
 
+	if c.err != nil {
+		// an earlier write failed, do not write after a possibly partial frame
+		return 0, c.err
+	}
+
 	if c.timeout > 0 {
 		err := c.w.SetWriteDeadline(time.Now().Add(c.timeout))
 		if err != nil {
 			return 0, err
 		}
 	}
-	return c.w.Write(p)
+	n, err := c.w.Write(p)
+	if err != nil {
+		c.err = err
+	}
+	return n, err
 }
 
 func newWriteCoalescer(conn deadlineWriter, writeTimeout, coalesceDuration time.Duration,
@@ -877,6 +891,11 @@ type writeCoalescer struct {
 	writeCh chan writeRequest
 
 	timeout time.Duration
+
+	// writeErr is the first error returned by a write to c. After a failed (possibly partial)
+	// write the byte stream may end in the middle of a frame, so no further frame may be written.
+	// Only accessed by the flusher goroutine.
+	writeErr error
 
 	testEnqueuedHook func()
 	testFlushedHook  func()
@@ -970,6 +989,16 @@ func (w *writeCoalescer) writeFlusherImpl(timerC <-chan time.Time, resetTimer fu
 }
 
 func (w *writeCoalescer) flush(resultChans []chan<- writeResult, buffers net.Buffers) {
+	if w.writeErr != nil {
+		// an earlier write failed, do not write after a possibly partial frame
+		for i := range resultChans {
+			resultChans[i] <- writeResult{
+				n:   0,
+				err: w.writeErr,
+			}
+		}
+		return
+	}
 	// Flush everything we have so far.
 	if w.timeout > 0 {
 		err := w.c.SetWriteDeadline(time.Now().Add(w.timeout))
@@ -987,6 +1016,9 @@ func (w *writeCoalescer) flush(resultChans []chan<- writeResult, buffers net.Buf
 	buffers2 := make(net.Buffers, len(buffers))
 	copy(buffers2, buffers)
 	n, err := buffers2.WriteTo(w.c)
+	if err != nil {
+		w.writeErr = err
+	}
 	// Writes of bytes before n succeeded, writes of bytes starting from n failed with err.
 	// Use n as remaining byte counter.
 	for i := range buffers {
